@@ -17,12 +17,31 @@ let int_of_pos p =
 let int_of_z = function Z0 -> 0 | Zpos p -> int_of_pos p | Zneg p -> - (int_of_pos p)
 let q_of_frac n d = qred { qnum = z_of_int n; qden = pos_of_int d }
 let q_of_int n = { qnum = z_of_int n; qden = XH }
+(* canonical printing shared with harness/common/caseio.hpp: a decimal integer when |v| < 2^62,
+   otherwise  m@e  (m odd, v = m * 2^e); non-dyadic or too large for a 62-bit mantissa: n/d or BIG *)
+let rec log2_exact d = if d = 1 then 0 else 1 + log2_exact (d / 2)
+let bits_of n = let rec go a k = if a = 0 then k else go (a lsr 1) (k + 1) in go (abs n) 0
+let inexact_seen = ref false     (* a printed value that no binary64 number represents exactly *)
 let str_of_q (x : q) =
+  let x = qred x in
+  let rec strip_pos p k = match p with XO q -> strip_pos q (k + 1) | _ -> (p, k) in
+  let (sign, np, k) = match x.qnum with
+    | Z0 -> (0, XH, 0)
+    | Zpos p -> let (p', k) = strip_pos p 0 in (1, p', k)
+    | Zneg p -> let (p', k) = strip_pos p 0 in (-1, p', k) in
+  if sign = 0 then "0" else
+  let (dp, dk) = strip_pos x.qden 0 in
+  if dp <> XH then begin
+    inexact_seen := true;
+    (try Printf.sprintf "%d*2^%d/%d" (sign * int_of_pos np) k (int_of_pos x.qden) with Big -> "BIG")
+  end else
   try
-    let x = qred x in
-    let n = int_of_z x.qnum and d = int_of_pos x.qden in
-    if d = 1 then string_of_int n else Printf.sprintf "%d/%d" n d
-  with Big -> "BIG"
+    let m = sign * int_of_pos np in
+    if bits_of m > 53 then inexact_seen := true;
+    let e = k - dk in
+    if e >= 0 && e <= 62 && bits_of m + e <= 62 then string_of_int (m * (1 lsl e))
+    else Printf.sprintf "%d@%d" m e
+  with Big -> (inexact_seen := true; "BIG")
 let str_of_z z = try string_of_int (int_of_z z) with Big -> "BIG"
 let mg (x : 'a) : Obj.t = Obj.repr x
 let qof (x : Obj.t) : q = Obj.obj x
@@ -196,14 +215,14 @@ let families : (string * (unit -> unit)) list ref = ref [
   ("dense", fam_dense); ("sparse", fam_sparse); ("forcing", fam_forcing); ("jacobian", fam_jacobian) ]
 
 let run_line line =
-  Buffer.clear buf;
+  Buffer.clear buf; inexact_seen := false;
   (match List.filter (fun s -> s <> "") (String.split_on_char ' ' (String.trim line)) with
    | [] -> ()
    | fam :: rest ->
      toks := rest;
      (match List.assoc_opt fam !families with
       | None -> out ("UNKNOWN_FAMILY " ^ fam)
-      | Some f -> (try f () with Failure m -> out ("DRIVER_FAILURE " ^ m))));
+      | Some f -> (try f () with Failure m -> out ("DRIVER_FAILURE " ^ m) | Big -> out "DRIVER_BIG" | e -> out ("DRIVER_EXCEPTION " ^ Printexc.to_string e))));
   print_endline (String.trim (Buffer.contents buf))
 
 let main () =
